@@ -183,6 +183,16 @@ impl SearchTable {
         self.search.verif_tt_get(key)
     }
 
+    /// the same with a whole stored line: (value, move bits) per ply
+    pub fn put_line(&mut self, key: ZobristHash, depth: usize, value: i32, node_type: u8, line: &[(i32, Option<u64>)]) {
+        self.search.verif_tt_put_line(key, depth, value, node_type, line);
+    }
+
+    /// (depth, value, node type, the stored line ply by ply, stored key)
+    pub fn get_line(&mut self, key: ZobristHash) -> Option<(usize, i32, u8, Vec<(i32, Option<u64>)>, ZobristHash)> {
+        self.search.verif_tt_get_line(key)
+    }
+
     pub fn clear(&mut self) { self.search.verif_tt().clear(); }
     pub fn len(&mut self) -> usize { self.search.verif_tt().len() }
     pub fn load_factor(&mut self) -> f32 { self.search.verif_tt().load_factor() }
